@@ -35,6 +35,7 @@ structure Same2 (s s' : St) : Prop where
   live2 : s'.live2 = s.live2
   susp2 : s'.susp2 = s.susp2
   parked2 : s'.parked2 = s.parked2
+  closed2 : s'.closed2 = s.closed2
   stopped2 : s'.stopped2 = s.stopped2
   gone : s'.gone = s.gone
   born2 : s'.born2 = s.born2
@@ -53,11 +54,11 @@ def RA (s s' : St) : Prop :=
 def Frame (s s' : St) : Prop := Plain s s' ∨ RA s s'
 
 theorem plain_refl (s : St) : Plain s s :=
-  ⟨⟨rfl, rfl, rfl, rfl, rfl, rfl, rfl, rfl, rfl, rfl⟩, rfl, rfl, rfl, rfl⟩
+  ⟨⟨rfl, rfl, rfl, rfl, rfl, rfl, rfl, rfl, rfl, rfl, rfl⟩, rfl, rfl, rfl, rfl⟩
 
 theorem same2_trans {s s1 s2 : St} (a : Same2 s s1) (b : Same2 s1 s2) : Same2 s s2 :=
   ⟨b.imgs.trans a.imgs, b.f2.trans a.f2, b.chan2.trans a.chan2, b.stream2.trans a.stream2, b.live2.trans a.live2,
-   b.susp2.trans a.susp2, b.parked2.trans a.parked2, b.stopped2.trans a.stopped2, b.gone.trans a.gone, b.born2.trans a.born2⟩
+   b.susp2.trans a.susp2, b.parked2.trans a.parked2, b.closed2.trans a.closed2, b.stopped2.trans a.stopped2, b.gone.trans a.gone, b.born2.trans a.born2⟩
 
 theorem plain_trans {s s1 s2 : St} (a : Plain s s1) (b : Plain s1 s2) : Plain s s2 :=
   ⟨same2_trans a.1 b.1, b.2.1.trans a.2.1, b.2.2.1.trans a.2.2.1, b.2.2.2.1.trans a.2.2.2.1, b.2.2.2.2.trans a.2.2.2.2⟩
@@ -69,7 +70,7 @@ theorem frame_trans_plain {s s1 s2 : St} (a : Frame s s1) (b : Plain s1 s2) : Fr
       b.2.2.2.2.trans a.2.2.2.2.2⟩
 
 /-- `Plain s s'` for an `s'` that is `s` with some of A's own fields updated -/
-local macro "plain_rfl" : term => `(⟨⟨rfl, rfl, rfl, rfl, rfl, rfl, rfl, rfl, rfl, rfl⟩, rfl, rfl, rfl, rfl⟩)
+local macro "plain_rfl" : term => `(⟨⟨rfl, rfl, rfl, rfl, rfl, rfl, rfl, rfl, rfl, rfl, rfl⟩, rfl, rfl, rfl, rfl⟩)
 
 theorem frameSame {s s' : St} (f : Frame s s') : Same2 s s' := by
   rcases f with f | f
@@ -111,12 +112,13 @@ structure HsPost (s s' : St) (ok : Bool) : Prop where
   own : s'.stopped = s.stopped ∧ s'.born = s.born
   fkeep : ¬ (s.F.app < s.gack) → s'.F = s.F
   lkeep : s.F.app ≤ s.L.app → s'.L = s.L
+  cl : s'.closed = s.closed
 
 theorem handshake_spec (cfg : Cfg) (s : St) (f : Fault) (h : InvA s) :
     HsPost s (handshake cfg s f).1 (handshake cfg s f).2 := by
   have hfail : ∀ (st : Stream), HsPost s { s with chan := .failure, stream := st, dz := false } false :=
     fun st => ⟨invc_notready h (fun e => by cases e), by simp, by simp, by simp, by simp, Int.le_refl _, Or.inl rfl,
-      fun _ => rfl, id, Or.inl plain_rfl, rfl, ⟨rfl, rfl⟩, fun _ => rfl, fun _ => rfl⟩
+      fun _ => rfl, id, Or.inl plain_rfl, rfl, ⟨rfl, rfl⟩, fun _ => rfl, fun _ => rfl, rfl⟩
   have hgc := h.lint.gack_cons
   unfold handshake replicaAckIndex resetReplicaIndex followerReset
   dsimp only
@@ -130,7 +132,7 @@ theorem handshake_spec (cfg : Cfg) (s : St) (f : Fault) (h : InvA s) :
     have hc : s.cons = s.F.app := by omega
     refine ⟨invA_mk (invc_ready (st' := .none) (dz' := false) h hc) rfl rfl rfl rfl rfl rfl rfl rfl,
       fun _ => ⟨rfl, rfl, hc, rfl⟩, ?_, by simp, by simp, Int.le_refl _, Or.inl rfl, fun _ => rfl, id, Or.inl plain_rfl, rfl, ⟨rfl, rfl⟩,
-      fun _ => rfl, fun _ => rfl⟩
+      fun _ => rfl, fun _ => rfl, rfl⟩
     intro _
     dsimp only
     split <;> omega
@@ -142,7 +144,7 @@ theorem handshake_spec (cfg : Cfg) (s : St) (f : Fault) (h : InvA s) :
       rw [e]
       refine ⟨invA_mk (invc_follower_reset (st' := .none) (dz' := false) h) rfl rfl rfl rfl rfl rfl rfl rfl,
         fun _ => ⟨rfl, rfl, rfl, rfl⟩, ?_, by simp, by simp, Int.le_refl _, Or.inr rfl, fun x => absurd rfl x,
-        fun n => nlc_follower_reset n hgc, Or.inl plain_rfl, rfl, ⟨rfl, rfl⟩, fun x => absurd hlt x, fun _ => rfl⟩
+        fun n => nlc_follower_reset n hgc, Or.inl plain_rfl, rfl, ⟨rfl, rfl⟩, fun x => absurd hlt x, fun _ => rfl, rfl⟩
       intro _
       dsimp only
       rw [if_pos hlt]
@@ -156,8 +158,8 @@ theorem handshake_spec (cfg : Cfg) (s : St) (f : Fault) (h : InvA s) :
         split at hah <;> simp at hah <;> omega
       refine ⟨invA_mk (invc_reset_append (st' := .none) (dz' := false) h (by omega)) rfl rfl rfl rfl rfl rfl rfl rfl,
         fun _ => ⟨rfl, rfl, rfl, rfl⟩, ?_, by simp, by simp, hg, Or.inl rfl, fun _ => rfl, ?_,
-        Or.inr ⟨⟨rfl, rfl, rfl, rfl, rfl, rfl, rfl, rfl, rfl, rfl⟩, hk, rfl, rfl, rfl, rfl⟩, rfl, ⟨rfl, rfl⟩,
-        fun _ => rfl, fun x => by omega⟩
+        Or.inr ⟨⟨rfl, rfl, rfl, rfl, rfl, rfl, rfl, rfl, rfl, rfl, rfl⟩, hk, rfl, rfl, rfl, rfl⟩, rfl, ⟨rfl, rfl⟩,
+        fun _ => rfl, (fun x => by omega), rfl⟩
       · intro _
         dsimp only
         rw [if_neg hge]
@@ -169,7 +171,7 @@ theorem handshake_spec (cfg : Cfg) (s : St) (f : Fault) (h : InvA s) :
       simp only [hah', Bool.false_eq_true, if_false, ackGroup, e, Int.le_refl, and_true, hg, if_true]
       refine ⟨invA_mk (invc_rewind (st' := .none) (dz' := false) h hg hle) rfl rfl rfl rfl rfl rfl rfl rfl,
         fun _ => ⟨rfl, rfl, rfl, rfl⟩, ?_, by simp, by simp, hg, Or.inl rfl, fun _ => rfl,
-        fun n => nlc_rewind n h.fint.ack_app, Or.inl plain_rfl, rfl, ⟨rfl, rfl⟩, fun _ => rfl, fun _ => rfl⟩
+        fun n => nlc_rewind n h.fint.ack_app, Or.inl plain_rfl, rfl, ⟨rfl, rfl⟩, fun _ => rfl, fun _ => rfl, rfl⟩
       intro _
       dsimp only
       rw [if_neg hge]
@@ -183,32 +185,33 @@ structure CnPost (s s' : St) (ok : Bool) : Prop where
   fail : ok = false → s'.chan = .failure
   plain : Plain s s'
   own : s'.stopped = s.stopped ∧ s'.born = s.born
+  cl : s.closed = false → s'.closed = false
 
 theorem connect_spec (s : St) (f : Fault) (h : InvA s) (hr : s.chan = .ready) :
     CnPost s (connect s f).1 (connect s f).2 := by
   unfold connect
   split
   · rename_i hs
-    exact ⟨h, ⟨rfl, rfl, rfl, rfl, rfl⟩, fun _ => ⟨hr, hs⟩, by simp, plain_rfl, ⟨rfl, rfl⟩⟩
+    exact ⟨h, ⟨rfl, rfl, rfl, rfl, rfl⟩, fun _ => ⟨hr, hs⟩, by simp, plain_rfl, ⟨rfl, rfl⟩, id⟩
   · rename_i hs
     have hs' : s.stream = .none := by
       cases hst : s.stream <;> simp_all
     split
-    · exact ⟨invc_notready h (fun e => by cases e), ⟨rfl, rfl, rfl, rfl, rfl⟩, by simp, by simp, plain_rfl, ⟨rfl, rfl⟩⟩
+    · exact ⟨invc_notready h (fun e => by cases e), ⟨rfl, rfl, rfl, rfl, rfl⟩, by simp, by simp, plain_rfl, ⟨rfl, rfl⟩, id⟩
     · have h' : InvC s.L s.cons s.gack s.F .ready .none s.dz s.stopped (s.imgs.map Img.va) := by
         have h0 := h
         unfold InvA at h0
         rw [hr, hs'] at h0
         exact h0
       exact ⟨invA_mk (invc_connect h') rfl rfl rfl rfl rfl rfl rfl rfl, ⟨rfl, rfl, rfl, rfl, rfl⟩,
-        fun _ => ⟨rfl, by simp⟩, by simp, plain_rfl, ⟨rfl, rfl⟩⟩
+        fun _ => ⟨rfl, by simp⟩, by simp, plain_rfl, ⟨rfl, rfl⟩, fun _ => rfl⟩
 
 /-! ### send phase -/
 
 structure SpPost (s s' : St) (o : Out) (f : Fault) : Prop where
   inv : InvA s'
   stream : s'.stream = s.stream
-  label : o ≠ .ignored ∧ (s.dz = false → f ≠ .put → o ≠ .mismatch)
+  label : o ≠ .ignored ∧ (s.dz = false → s.closed = false → f ≠ .put → o ≠ .mismatch)
   olabel : o = .idle ∨ o = .sendfail ∨ o = .recvfail ∨ o = .acked ∨ o = .mismatch
   ackok : s'.gack ≠ s.gack → s'.gack ≤ s'.F.app
   gmono : s.gack ≤ s'.gack
@@ -217,8 +220,9 @@ structure SpPost (s s' : St) (o : Out) (f : Fault) : Prop where
   cover : ∀ i, s.gack < i → i ≤ s'.gack → s.F.app < i → i ≤ s'.F.app
   nl : NLA s → NLA s'
   plain : Plain s s'
-  dz : s.dz = false → f ≠ .put → s'.dz = false
+  dz : s.dz = false → s.closed = false → f ≠ .put → s'.dz = false
   own : s'.stopped = s.stopped ∧ s'.born = s.born
+  cl : s'.closed = s.closed
 
 theorem sendPhase_spec (cfg : Cfg) (s : St) (f : Fault) (h : InvA s) (hr : s.chan = .ready) (hst : s.stopped = false) :
     SpPost s (sendPhase cfg s f).1 (sendPhase cfg s f).2 f := by
@@ -237,69 +241,92 @@ theorem sendPhase_spec (cfg : Cfg) (s : St) (f : Fault) (h : InvA s) (hr : s.cha
     unfold replicaSend replicaLog
     dsimp only
     have hk := h.k hr
+    -- every way into Replica's else-branch (closed partition, failed Put, unexpected index) has this outcome
+    have helse : (s.dz = false → s.closed = false → f ≠ .put → False) →
+        SpPost s
+          (if cfg.mfail = true then
+            (({ s with cons := s.cons + 1, chan := .failure } : St), Out.mismatch)
+           else (({ s with cons := s.cons + 1, dz := true } : St), Out.mismatch)).1
+          (if cfg.mfail = true then
+            (({ s with cons := s.cons + 1, chan := .failure } : St), Out.mismatch)
+           else (({ s with cons := s.cons + 1, dz := true } : St), Out.mismatch)).2 f := by
+      intro hx
+      split
+      · exact ⟨invA_mk (invc_consume_fail (st' := s.stream) (dz' := s.dz) h hk hle) rfl rfl rfl rfl rfl rfl rfl rfl, rfl,
+          ⟨by simp, fun a b c => (hx a b c).elim⟩, by simp, by simp, Int.le_refl _, Int.le_refl _, rfl,
+          (fun i a b _ => by dsimp only at b; omega), fun n => nlc_consume n hle, plain_rfl, (fun d _ _ => d), ⟨rfl, rfl⟩, rfl⟩
+      · exact ⟨invA_mk (invc_consume_mismatch (ch' := s.chan) h hk hle) rfl rfl rfl rfl rfl rfl rfl rfl, rfl,
+          ⟨by simp, fun a b c => (hx a b c).elim⟩, by simp, by simp, Int.le_refl _, Int.le_refl _, rfl,
+          (fun i a b _ => by dsimp only at b; omega), fun n => nlc_consume n hle, plain_rfl, (fun a b c => (hx a b c).elim), ⟨rfl, rfl⟩, rfl⟩
+    have hfailed : SpPost s ({ s with cons := s.cons + 1, chan := .failure } : St) Out.recvfail f ∧
+        SpPost s ({ s with cons := s.cons + 1, chan := .failure } : St) Out.sendfail f :=
+      ⟨⟨invA_mk (invc_consume_fail (st' := s.stream) (dz' := s.dz) h hk hle) rfl rfl rfl rfl rfl rfl rfl rfl, rfl,
+          by simp, by simp, by simp, Int.le_refl _, Int.le_refl _, rfl, (fun i a b _ => by dsimp only at b; omega),
+          fun n => nlc_consume n hle, plain_rfl, (fun d _ _ => d), ⟨rfl, rfl⟩, rfl⟩,
+       ⟨invA_mk (invc_consume_fail (st' := s.stream) (dz' := s.dz) h hk hle) rfl rfl rfl rfl rfl rfl rfl rfl, rfl,
+          by simp, by simp, by simp, Int.le_refl _, Int.le_refl _, rfl, (fun i a b _ => by dsimp only at b; omega),
+          fun n => nlc_consume n hle, plain_rfl, (fun d _ _ => d), ⟨rfl, rfl⟩, rfl⟩⟩
     split
     · -- the request was lost
-      exact ⟨invA_mk (invc_consume_fail (st' := s.stream) (dz' := s.dz) h hk hle) rfl rfl rfl rfl rfl rfl rfl rfl, rfl,
-        by simp, by simp, by simp, Int.le_refl _, Int.le_refl _, rfl, (fun i a b _ => by dsimp only at b; omega),
-        fun n => nlc_consume n hle, plain_rfl, (fun d _ => d), ⟨rfl, rfl⟩⟩
+      exact hfailed.2
     · rename_i hs
       have hup : s.stream = .up := by
         cases hst : s.stream <;> simp_all
-      by_cases hc : s.cons = s.F.app
-      · rw [if_neg (by omega : ¬ (s.cons + 1 ≠ s.F.app + 1))]
-        by_cases hp : f = .put
-        · -- the follower's Put fails: nothing appended, the answer carries -1, the state stays `ready`
-          subst hp
-          simp only [decide_true, if_true, reduceCtorEq, if_false]
-          rw [if_neg (by omega : ¬ ((-1 : Int) = s.cons + 1))]
-          split
-          · exact ⟨invA_mk (invc_consume_fail (st' := s.stream) (dz' := s.dz) h hk hle) rfl rfl rfl rfl rfl rfl rfl rfl, rfl,
-              ⟨by simp, fun _ x => absurd rfl x⟩, by simp, by simp, Int.le_refl _, Int.le_refl _, rfl,
-              (fun i a b _ => by dsimp only at b; omega), fun n => nlc_consume n hle, plain_rfl, (fun d _ => d), ⟨rfl, rfl⟩⟩
-          · exact ⟨invA_mk (invc_consume_mismatch (ch' := s.chan) h hk hle) rfl rfl rfl rfl rfl rfl rfl rfl, rfl,
-              ⟨by simp, fun _ x => absurd rfl x⟩, by simp, by simp, Int.le_refl _, Int.le_refl _, rfl,
-              (fun i a b _ => by dsimp only at b; omega), fun n => nlc_consume n hle, plain_rfl, (fun _ x => absurd rfl x), ⟨rfl, rfl⟩⟩
-        · have e2 : decide (f = Fault.put) = false := by simpa using hp
-          simp only [e2, Bool.false_eq_true, if_false]
-          split
-          · -- recv failed
-            exact ⟨invA_mk (invc_deliver (ch' := .failure) (st' := s.stream) (dz' := s.dz) h hc hle hm) rfl rfl rfl rfl rfl rfl rfl rfl,
-              rfl, by simp, by simp, by simp, Int.le_refl _, by simp only [Log.put]; omega, rfl,
-              (fun i a b _ => by dsimp only at b; omega),
-              fun n => nlc_deliver n hc hle hm h.fint.ack_app, plain_rfl, (fun d _ => d), ⟨rfl, rfl⟩⟩
-          · rw [if_pos (by omega : s.F.app + 1 = s.cons + 1)]
-            unfold ackGroup
-            dsimp only
-            rw [if_pos ⟨by have := hl.gack_cons; omega, by omega⟩]
-            refine ⟨invA_mk (invc_ack (invc_deliver (ch' := s.chan) (st' := s.stream) (dz' := s.dz) h hc hle hm) (a := s.F.app + 1)
-                (by have := hl.gack_cons; omega) (by omega)) rfl rfl rfl rfl rfl rfl rfl rfl, rfl, by simp, by simp, ?_,
-              (show s.gack ≤ s.F.app + 1 by have := hl.gack_cons; omega), by simp only [Log.put]; omega, rfl, ?_,
-              fun n => nlc_ack (a := s.F.app + 1) (nlc_deliver n hc hle hm h.fint.ack_app) (by have := hl.gack_cons; omega), plain_rfl, (fun d _ => d), ⟨rfl, rfl⟩⟩
-            · intro _
-              simp only [Log.put]; omega
-            · intro i _ b _
-              dsimp only at b
-              simp only [Log.put]; omega
-      · -- the follower's next index is another one: the channel is out of step
-        have hd : s.dz = false → False :=
-          fun d => hc (h.sync hr d (by rw [hup]; intro e; cases e))
-        rw [if_pos (by omega : s.cons + 1 ≠ s.F.app + 1)]
-        dsimp only
+      by_cases hcl : s.closed = true
+      · -- the stream's partition is closed: (0, ErrPartitionClosed); nothing appended, nothing acknowledged
+        have eor : ∀ b : Bool, (s.closed || b) = true := fun b => by rw [hcl]; rfl
+        simp only [if_pos hcl, eor, Bool.true_eq_false, false_and, if_false]
         split
-        · exact ⟨invA_mk (invc_consume_fail (st' := s.stream) (dz' := s.dz) h hk hle) rfl rfl rfl rfl rfl rfl rfl rfl, rfl,
-            by simp, by simp, by simp, Int.le_refl _, Int.le_refl _, rfl, (fun i a b _ => by dsimp only at b; omega),
-            fun n => nlc_consume n hle, plain_rfl, (fun d _ => d), ⟨rfl, rfl⟩⟩
-        · rw [if_neg (by omega : ¬ (s.F.app + 1 = s.cons + 1))]
+        · exact hfailed.1
+        · exact helse (fun _ c _ => by rw [hcl] at c; cases c)
+      · have hcl' : s.closed = false := by simpa using hcl
+        have eor : ∀ b : Bool, (s.closed || b) = b := fun b => by rw [hcl']; rfl
+        simp only [if_neg hcl, eor]
+        by_cases hc : s.cons = s.F.app
+        · rw [if_neg (by omega : ¬ (s.cons + 1 ≠ s.F.app + 1))]
+          by_cases hp : f = .put
+          · -- the follower's Put fails: nothing appended, the answer carries -1 and an error
+            subst hp
+            simp only [decide_true, if_true, reduceCtorEq, if_false, true_and]
+            have hd : decide (s.cons + 1 = s.F.app + 1) = true := by simp; omega
+            simp only [hd, Bool.true_eq_false, false_and, if_false]
+            exact helse (fun _ _ c => c rfl)
+          · have e2 : decide (f = Fault.put) = false := by simpa using hp
+            have e3 : decide (f = Fault.put ∧ s.cons + 1 = s.F.app + 1) = false := by simp [hp]
+            simp only [e2, e3, Bool.false_eq_true, if_false, true_and]
+            split
+            · -- recv failed
+              exact ⟨invA_mk (invc_deliver (ch' := .failure) (st' := s.stream) (dz' := s.dz) h hc hle hm) rfl rfl rfl rfl rfl rfl rfl rfl,
+                rfl, by simp, by simp, by simp, Int.le_refl _, by simp only [Log.put]; omega, rfl,
+                (fun i a b _ => by dsimp only at b; omega),
+                fun n => nlc_deliver n hc hle hm h.fint.ack_app, plain_rfl, (fun d _ _ => d), ⟨rfl, rfl⟩, rfl⟩
+            · rw [if_pos (by omega : s.F.app + 1 = s.cons + 1)]
+              unfold ackGroup
+              dsimp only
+              rw [if_pos ⟨by have := hl.gack_cons; omega, by omega⟩]
+              refine ⟨invA_mk (invc_ack (invc_deliver (ch' := s.chan) (st' := s.stream) (dz' := s.dz) h hc hle hm) (a := s.F.app + 1)
+                  (by have := hl.gack_cons; omega) (by omega)) rfl rfl rfl rfl rfl rfl rfl rfl, rfl, by simp, by simp, ?_,
+                (show s.gack ≤ s.F.app + 1 by have := hl.gack_cons; omega), by simp only [Log.put]; omega, rfl, ?_,
+                fun n => nlc_ack (a := s.F.app + 1) (nlc_deliver n hc hle hm h.fint.ack_app) (by have := hl.gack_cons; omega), plain_rfl,
+                (fun d _ _ => d), ⟨rfl, rfl⟩, rfl⟩
+              · intro _
+                simp only [Log.put]; omega
+              · intro i _ b _
+                dsimp only at b
+                simp only [Log.put]; omega
+        · -- the follower's next index is another one: the channel is out of step
+          have hd : s.dz = false → False :=
+            fun d => hc (h.sync hr d (by rw [hup]; intro e; cases e))
+          rw [if_pos (by omega : s.cons + 1 ≠ s.F.app + 1)]
+          have e3 : decide (f = Fault.put ∧ s.cons + 1 = s.F.app + 1) = false := by simp; intro _; omega
+          simp only [e3, true_and]
           split
-          · exact ⟨invA_mk (invc_consume_fail (st' := s.stream) (dz' := s.dz) h hk hle) rfl rfl rfl rfl rfl rfl rfl rfl, rfl,
-              ⟨by simp, fun d _ => (hd d).elim⟩, by simp, by simp, Int.le_refl _, Int.le_refl _, rfl,
-              (fun i a b _ => by dsimp only at b; omega), fun n => nlc_consume n hle, plain_rfl, (fun d _ => d), ⟨rfl, rfl⟩⟩
-          · exact ⟨invA_mk (invc_consume_mismatch (ch' := s.chan) h hk hle) rfl rfl rfl rfl rfl rfl rfl rfl, rfl,
-              ⟨by simp, fun d _ => (hd d).elim⟩, by simp, by simp, Int.le_refl _, Int.le_refl _, rfl,
-              (fun i a b _ => by dsimp only at b; omega), fun n => nlc_consume n hle, plain_rfl, (fun d _ => (hd d).elim), ⟨rfl, rfl⟩⟩
+          · exact hfailed.1
+          · rw [if_neg (by omega : ¬ (s.F.app + 1 = s.cons + 1))]
+            exact helse (fun d _ _ => hd d)
   · dsimp only
     rw [if_pos (by decide)]
-    exact ⟨h, rfl, by simp, by simp, by simp, Int.le_refl _, Int.le_refl _, rfl, (fun i a b _ => by dsimp only at b; omega), id, plain_rfl, (fun d _ => d), ⟨rfl, rfl⟩⟩
+    exact ⟨h, rfl, by simp, by simp, by simp, Int.le_refl _, Int.le_refl _, rfl, (fun i a b _ => by dsimp only at b; omega), id, plain_rfl, (fun d _ _ => d), ⟨rfl, rfl⟩, rfl⟩
 
 /-! ### one `partition.replica` call -/
 
@@ -307,15 +334,17 @@ theorem sendPhase_spec (cfg : Cfg) (s : St) (f : Fault) (h : InvA s) (hr : s.cha
 structure EvPost (s s' : St) (o : Out) (f : Fault) : Prop where
   inv : InvA s'
   bnd : s'.chan = .ready → s'.stream ≠ .none
-  label : o ≠ .ignored ∧ (s.dz = false → s.chan = .ready → f ≠ .put → o ≠ .mismatch) ∧ (s.chan ≠ .ready → f ≠ .put → o ≠ .mismatch)
+  label : o ≠ .ignored ∧ (s.dz = false → s.closed = false → s.chan = .ready → f ≠ .put → o ≠ .mismatch) ∧
+    (s.chan ≠ .ready → s.closed = false → f ≠ .put → o ≠ .mismatch)
   ackok : s'.gack ≠ s.gack → s'.gack ≤ s'.F.app
   gmono : s.gack ≤ s'.gack
   fack : s'.F.ack = s.F.ack ∨ s'.F.ack = s.gack
   cover : ∀ i, s.gack < i → i ≤ s'.gack → i ≤ s'.F.app
   nl : NLA s → NLA s'
   frame : Frame s s'
-  dzkeep : s.dz = false → f ≠ .put → s'.dz = false
+  dzkeep : s.dz = false → s.closed = false → f ≠ .put → s'.dz = false
   own : s'.stopped = s.stopped ∧ s'.born = s.born
+  cl : s.closed = false → s'.closed = false
 
 structure IrPost (s s' : St) (ok : Bool) : Prop where
   inv : InvA s'
@@ -331,6 +360,7 @@ structure IrPost (s s' : St) (ok : Bool) : Prop where
   frame : Frame s s'
   dzkeep : s.dz = false → s'.dz = false
   own : s'.stopped = s.stopped ∧ s'.born = s.born
+  cl : s'.closed = s.closed
 
 theorem isReady_spec (cfg : Cfg) (s : St) (f : Fault) (h : InvA s) :
     IrPost s (isReady cfg s f).1 (isReady cfg s f).2 := by
@@ -338,15 +368,15 @@ theorem isReady_spec (cfg : Cfg) (s : St) (f : Fault) (h : InvA s) :
   split
   · rename_i hr
     exact ⟨h, fun _ => hr, fun _ x => absurd hr x, fun _ => rfl, by simp, by simp, Int.le_refl _, Or.inl rfl, fun _ => rfl, id,
-      Or.inl plain_rfl, id, ⟨rfl, rfl⟩⟩
+      Or.inl plain_rfl, id, ⟨rfl, rfl⟩, rfl⟩
   split
   · rename_i hn _
     exact ⟨invc_notready h (fun e => by cases e), by simp, by simp, fun x => absurd x hn, by simp, by simp, Int.le_refl _,
-      Or.inl rfl, fun _ => rfl, id, Or.inl plain_rfl, id, ⟨rfl, rfl⟩⟩
+      Or.inl rfl, fun _ => rfl, id, Or.inl plain_rfl, id, ⟨rfl, rfl⟩, rfl⟩
   · rename_i hn _
     have hs := handshake_spec cfg s f h
     exact ⟨hs.inv, fun e => (hs.ok_ready e).1, fun e _ => (hs.ok_ready e).2.2.2, fun x => absurd x hn, hs.fail, hs.ackok,
-      hs.gmono, hs.fack, hs.fapp, hs.nl, hs.frame, fun _ => hs.dz, hs.own⟩
+      hs.gmono, hs.fack, hs.fapp, hs.nl, hs.frame, fun _ => hs.dz, hs.own, hs.cl⟩
 
 theorem replicaStep_spec (cfg : Cfg) (s : St) (f : Fault) (h : InvA s) (hst : s.stopped = false) :
     EvPost s (replicaStep cfg s f).1 (replicaStep cfg s f).2 f := by
@@ -362,7 +392,7 @@ theorem replicaStep_spec (cfg : Cfg) (s : St) (f : Fault) (h : InvA s) (hst : s.
   cases ok
   · have hf := hi.fail rfl
     simp only [Bool.false_eq_true, if_false]
-    refine ⟨hi.inv, (fun e => by rw [hf] at e; cases e), ⟨?_, ?_, ?_⟩, hi.ackok, hi.gmono, hi.fack, hcov1, hi.nl, hi.frame, fun d _ => hi.dzkeep d, hi.own⟩
+    refine ⟨hi.inv, (fun e => by rw [hf] at e; cases e), ⟨?_, ?_, ?_⟩, hi.ackok, hi.gmono, hi.fack, hcov1, hi.nl, hi.frame, fun d _ _ => hi.dzkeep d, hi.own, fun c => by rw [hi.cl]; exact c⟩
     all_goals (intros; split <;> simp)
   · simp only [if_true]
     have hr := hi.ok_ready rfl
@@ -377,8 +407,8 @@ theorem replicaStep_spec (cfg : Cfg) (s : St) (f : Fault) (h : InvA s) (hst : s.
       simp only [Bool.false_eq_true, if_false]
       refine ⟨hc.inv, (fun e => by rw [hf] at e; cases e), by simp, ?_, by rw [hc.same.2.2.1]; exact hi.gmono,
         by rw [hc.same.2.2.2.1]; exact hi.fack, ?_, fun n => hnl (hi.nl n), frame_trans_plain hi.frame hc.plain,
-        fun d _ => by rw [hc.same.2.2.2.2]; exact hi.dzkeep d,
-        ⟨hc.own.1.trans hi.own.1, hc.own.2.trans hi.own.2⟩⟩
+        fun d _ _ => by rw [hc.same.2.2.2.2]; exact hi.dzkeep d,
+        ⟨hc.own.1.trans hi.own.1, hc.own.2.trans hi.own.2⟩, fun c => hc.cl (by rw [hi.cl]; exact c)⟩
       · rw [hc.same.2.2.1, hc.same.2.2.2.1]
         exact hi.ackok
       · rw [hc.same.2.2.1, hc.same.2.2.2.1]
@@ -389,14 +419,16 @@ theorem replicaStep_spec (cfg : Cfg) (s : St) (f : Fault) (h : InvA s) (hst : s.
       have hdz2 : s.dz = false → s.chan = .ready → s2.dz = false := by
         intro d r
         rw [hc.same.2.2.2.2, hi.same_ready r]; exact d
+      have hcl2 : s.closed = false → s2.closed = false := fun c => hc.cl (by rw [hi.cl]; exact c)
       have hdz2' : s.chan ≠ .ready → s2.dz = false := by
         intro r
         rw [hc.same.2.2.2.2]; exact hi.ok_dz rfl r
       refine ⟨hsp.inv, fun _ => by rw [hsp.stream]; exact hrd.2,
-        ⟨hsp.label.1, fun d r p => hsp.label.2 (hdz2 d r) p, fun r p => hsp.label.2 (hdz2' r) p⟩, ?_, ?_, ?_, ?_,
+        ⟨hsp.label.1, fun d c r p => hsp.label.2 (hdz2 d r) (hcl2 c) p, fun r c p => hsp.label.2 (hdz2' r) (hcl2 c) p⟩, ?_, ?_, ?_, ?_,
         fun n => hsp.nl (hnl (hi.nl n)), frame_trans_plain (frame_trans_plain hi.frame hc.plain) hsp.plain,
-        fun d p => hsp.dz (by rw [hc.same.2.2.2.2]; exact hi.dzkeep d) p,
-        ⟨hsp.own.1.trans (hc.own.1.trans hi.own.1), hsp.own.2.trans (hc.own.2.trans hi.own.2)⟩⟩
+        fun d c p => hsp.dz (by rw [hc.same.2.2.2.2]; exact hi.dzkeep d) (hcl2 c) p,
+        ⟨hsp.own.1.trans (hc.own.1.trans hi.own.1), hsp.own.2.trans (hc.own.2.trans hi.own.2)⟩,
+        fun c => by rw [hsp.cl]; exact hcl2 c⟩
       · intro hne
         by_cases h23 : (sendPhase cfg s2 f).1.gack = s2.gack
         · have h1 : s1.gack ≠ s.gack := by rw [← hc.same.2.2.1, ← h23]; exact hne
